@@ -18,7 +18,9 @@ import (
 
 var c13Names = []string{"200", "201", "204", "400", "404", "500", "1XX", "2XX", "3XX", "4XX", "5XX", "default"}
 var c13CTs = []string{"application/json", "application/vnd.api+json", "application/hal+json", "application/problem+json", "text/x-json",
-	"application/yaml", "text/yaml", "application/xml", "text/xml", "text/plain", "application/octet-stream", "image/png"}
+	"application/yaml", "text/yaml", "application/xml", "text/xml", "text/plain", "application/octet-stream", "image/png",
+	// a declared media type may carry a parameter
+	"application/json; charset=utf-8"}
 
 type c13Resp struct {
 	Name     string
